@@ -286,6 +286,11 @@ def run_pair(desc):
         var = base + [{"date": iso(s), "ticker": tk, "kind": first, "ratio": ratio},
                       {"date": iso(e), "ticker": tk, "kind": second, "ratio": ratio}]
         var.sort(key=lambda t: t["date"])   # stable: SPLIT stays before UNSPLIT on one date
+        if not (is_terminating(fr(ratio)) and is_terminating(1 / fr(ratio))) and event_on_zero_holding(var):
+            # a capital event on an exactly-zero holding after a non-terminating pair: whether ~1e-27 of a share is
+            # "held" decides (known residue family, reported by C11); not a statement about splits
+            cnt["pairs_skipped_event_on_zero_holding_after_nonterminating_pair"] += 1
+            continue
         reqs += [lc.calc_case(base), lc.calc_case(var)]
         meta.append((base, var, ratio, first))
     obs = probe().run(reqs)
